@@ -114,6 +114,72 @@ def gen_spec(rng, n=None):
 
 
 # ---------------------------------------------------------------------------
+# members of a group that carry the same name (both chips of one exposure named after the file)
+# ---------------------------------------------------------------------------
+def shared_name_probes(ctx, count):
+    """The catalog rows of a group are tied to their member by position in the group, never by the member's
+    name: two chips of one exposure often carry the same name (or none: 'Unknown').  Oracle (geometric only,
+    the name-based bookkeeping of the harness is not used): every image SUCCESS, every appended row at the true
+    sky position of a physical source (noise-free scene), no physical source listed twice."""
+    rng = ctx.rng
+    for it in range(count):
+        seed = rng.getrandbits(32)
+        scene = alignsim.Scene(np.random.default_rng(seed))
+        spec = None
+        for _ in range(60):
+            sp = gen_spec(rng, rng.choice([3, 4, 5]))
+            if sp is None:
+                continue
+            gids = [g for _, _, g in sp['images']]
+            if sum(1 for g in gids if g is not None) >= 2:
+                spec = sp
+                break
+        if spec is None:
+            continue
+        n = len(spec['images'])
+        spec['images'] = [(o, 'good', g) for o, _, g in spec['images']]
+        spec['expand'] = True
+        spec['ref'] = {'kind': 'table', 'region': rng.choice(['centre', 'east']), 'ids': None}
+        same = rng.choice(['exp01_flt.fits', 'Unknown', 'a'])
+        spec['names'] = [same if g is not None else 'single%d' % k for k, (_, _, g) in enumerate(spec['images'])]
+        spec = c13.decanon(c13.canon(spec))
+        case = {'op': 'align', 'scene_seed': seed, 'family': 'shared-member-name', 'spec': c13.canon(spec)}
+        ctx.case(case, nontrivial=True, branch='align:shared-member-name')
+        rec = alignsim.run_scenario(scene, spec, None)
+        if rec['exc'] is not None or rec['out'] is None:
+            ctx.oracle_fail(case, {'what': 'align_wcs raised', 'exception': rec['exc']})
+            continue
+        if alignsim.polluted(rec) or any(s != 'SUCCESS' for s in rec['status']):
+            ctx.branch('shared-member-name:not-all-success-skipped')
+            continue
+        rows = rec['rows']
+        ninit = len(rec['ref_ids'])
+        bad = [(j, r[3]) for j, r in enumerate(rows) if j >= ninit and r[3] > 0.05]
+        if bad:
+            ctx.oracle_fail(case, {'what': 'a row appended from a successfully aligned group is not at the sky position '
+                                   'of a physical source (members of the group share a name)', 'row': bad[0][0],
+                                   'distance_px': bad[0][1], 'n_bad': len(bad)})
+            continue
+        seen = {}
+        for j, r in enumerate(rows):
+            seen.setdefault(r[0], []).append(j)
+        dup = {s_: js for s_, js in seen.items() if len(js) > 1}
+        if dup:
+            s0, js = sorted(dup.items())[0]
+            ctx.oracle_fail(case, {'what': 'a physical source is listed more than once in the returned catalog (members '
+                                   'of the group share a name)', 'source': s0, 'rows': js})
+        # every unmatched source of every image must have been appended exactly once
+        want = set()
+        for k in range(n):
+            want.update(rec['srcs'][k])
+        want -= set(rec['ref_ids'])
+        got = {r[0] for r in rows[ninit:]}
+        if want != got:
+            ctx.oracle_fail(case, {'what': 'the appended rows are not exactly the sources that were not in the reference '
+                                   'catalog', 'missing': sorted(want - got)[:5], 'extra': sorted(got - want)[:5]})
+
+
+# ---------------------------------------------------------------------------
 # oracle
 # ---------------------------------------------------------------------------
 def sky_sep_px(a, b):
@@ -356,6 +422,7 @@ def run(ctx):
     lines, pending = [], []
     if not ctx.search_only:
         regression_probes(ctx, lines, pending)
+    shared_name_probes(ctx, ctx.n(4, 40))
     # the five-image scenario family of the design-phase experiment e5 (failing image in the middle)
     for enforce in (True, False):
         for junkpos in (0, 1, 2):
